@@ -79,6 +79,9 @@ impl BarState {
 
         if let Reset::All = mode {
             self.state.pos.reset(now);
+            // The position restarts from 0: the estimator must not measure the next update
+            // against the position before the reset.
+            self.state.est.prev_steps = 0;
             self.state.status = Status::InProgress;
 
             for tracker in self.style.format_map.values_mut() {
